@@ -33,6 +33,8 @@ type Config struct {
 	XSync []string `json:"xsync"` // x/sync sub-packages to copy+instrument
 	// NoTime lists files whose "time" import is left real.
 	NoTime []string `json:"no_time"`
+	// OSSeam lists files whose "os" import is redirected to the vos shim (namespace operations become visible events).
+	OSSeam []string `json:"os_seam"`
 	// NoCtx lists files whose "context" import is left real.
 	NoCtx []string `json:"no_ctx"`
 	// SortRange: file -> range expressions (source text) that are maps and must be iterated in sorted key order.
@@ -93,6 +95,7 @@ func Generate(cfg Config) (*Overlay, error) {
 		opt := fileOpts{
 			time:      !in(cfg.NoTime, f),
 			noCtx:     in(cfg.NoCtx, f),
+			osSeam:    in(cfg.OSSeam, f),
 			sortRange: cfg.SortRange[f],
 			watch:     cfg.Watch[f],
 			mapRW:     cfg.MapRW[f],
@@ -192,6 +195,7 @@ type fileOpts struct {
 	extraImp  map[string]string
 	label     string
 	noCtx     bool
+	osSeam    bool
 }
 
 var importMap = map[string]string{
@@ -203,7 +207,7 @@ var importMap = map[string]string{
 }
 
 var defaultName = map[string]string{
-	"sync": "sync", "sync/atomic": "atomic", "time": "time", "context": "context",
+	"sync": "sync", "sync/atomic": "atomic", "time": "time", "context": "context", "os": "os",
 	"golang.org/x/sync/errgroup": "errgroup", "golang.org/x/sync/semaphore": "semaphore",
 	"golang.org/x/sync/singleflight": "singleflight",
 }
@@ -252,6 +256,9 @@ func InstrumentFile(path string, opt fileOpts) ([]byte, error) {
 		}
 		if p == "context" && opt.noCtx {
 			ok = false
+		}
+		if p == "os" && opt.osSeam {
+			np, ok = VrtPath+"/vos", true
 		}
 		if !ok {
 			continue
